@@ -22,6 +22,7 @@ from __future__ import annotations
 
 import contextlib
 import dataclasses
+import functools
 import sys
 import warnings
 from typing import Callable, Mapping, MutableSet, TypeVar, overload
@@ -119,6 +120,16 @@ def slotted(  # noqa: C901
         for f in field_names:
             cls_dict.pop(f, None)
 
+        # A field excluded from `__init__` is never assigned, its default is read from
+        #   the class - where a slot can't keep it. Assign those on construction.
+        late = {
+            f.name: f.default
+            for f in dataclasses.fields(cls)
+            if not f.init and f.default is not dataclasses.MISSING
+        }
+        if late and "__init__" in cls_dict:
+            cls_dict["__init__"] = _with_defaults(cls_dict["__init__"], late)
+
         # Erase __dict__ and __weakref__
         cls_dict.pop("__dict__", None)
         cls_dict.pop("__weakref__", None)
@@ -154,6 +165,16 @@ def slotted(  # noqa: C901
         return new_cls
 
     return wrap if _cls is None else wrap(_cls)
+
+
+def _with_defaults(init, defaults):
+    @functools.wraps(init)
+    def __init__(self, *args, **kwargs):
+        for name, value in defaults.items():
+            object.__setattr__(self, name, value)
+        init(self, *args, **kwargs)
+
+    return __init__
 
 
 _stack: MutableSet[type] = set()
